@@ -244,33 +244,48 @@ Proof.
   split; vm_compute; reflexivity.
 Qed.
 
-From PV Require Import Spec.TokenDepth Proofs.ParserProofs Proofs.TreeShape Proofs.WriterCursor Proofs.AstWriterDepth.
+From PV Require Import Spec.TokenDepth Proofs.ParserProofs Proofs.TreeShape Proofs.WriterCursor Proofs.AstWriterDepth Proofs.FmtLineEnd.
 
 (* ---------- the nesting counter is the reference depth ----------
    Spec/TokenDepth.v token_depth ts i: the number of blocks and brackets open at token i of the input, by the rules of
    the reference reader Spec/FmtShape.v (written from the manuals; tok_depth_at_agrees / tok_depth_after_agrees: the
-   same function on tokens).  Two more computable exclusions on the tree (Proofs/AstWriterDepth.v):
-     no_short_else    no one-line `if (c) ... else ...` (the writer indents its else part by one, the reference counts
-                      `else` without `then` / `end` as net zero; a token of the else part never begins a line)
+   same function on tokens).  One computable exclusion on the tree (Proofs/AstWriterDepth.v):
      no_trailing_sep  no table constructor with a trailing field separator `{1,2,}` (the writer writes it after leaving the
-                      table's level: C10_indent_trailing_sep_refuted below). *)
+                      table's level: C10_indent_trailing_sep_refuted below)
+   and one check on the white-space / comment tokens (Proofs/FmtLineEnd.v):
+     trivia_tidy      a token that is not a newline token does not end a line: no CR / LF byte of its code is followed by
+                      blanks only up to the end of the code (picotool's lexer: spaces are [ \t]+, `--` / `//` comments stop
+                      before the line end, block comments end in `]]`) - so that a token begins a line of the output only
+                      after a white-space run that holds a newline token.
+   A one-line `if (c) .. else ..` is no exclusion: the writer's counter is one above the reference depth at its `else` and
+   inside its else part, but everything after the condition of a one-line if lies on the same line (the parser's fence:
+   C08_shortif_fence), so no such token follows a run with a newline token. *)
 
 (* every non-empty white-space run the writer hands to _get_code_for_spaces that ends before the end of the token list
-   ends at a significant token i and is passed _indent = token_depth ts i *)
+   ends at a significant token i, and - if it holds a newline token, i.e. if token i can begin a line - it is passed
+   _indent = token_depth ts i *)
 Theorem C10_indent_link : forall ts root e,
   lua_parse ts = Ok (root, e) -> consumed ts e = true -> writable ts root = true ->
-  no_short_else root = true -> no_trailing_sep root = true ->
+  no_trailing_sep root = true ->
   exists cs, writer_chunks ts (view root) = Ok (cs, zlen ts) /\
     forall s ind at_end run, In (Trivia s ind at_end run) cs -> run <> [] -> s + zlen run < zlen ts ->
-      sigb ts (s + zlen run) = true /\ ind = token_depth ts (s + zlen run).
+      sigb ts (s + zlen run) = true /\ (existsb is_newline run = true -> ind = token_depth ts (s + zlen run)).
 Proof. exact program_depth. Qed.
 Print Assumptions C10_indent_link.
+
+(* a white-space run whose formatted text ends in "line feed, blanks" holds a newline token (for tidy tokens) *)
+Theorem C10_line_start_needs_newline : forall w s ind (run : list token) p q,
+  Forall (fun t => is_newline t = true \/ ends_line (tcode t) = false) run ->
+  fmt_spaces w s ind false run = p ++ NL :: q -> noNL q -> forallb is_sp q = true ->
+  existsb is_newline run = true.
+Proof. exact tidy_run_newline. Qed.
+Print Assumptions C10_line_start_needs_newline.
 
 (* C10's indentation clause for whole programs: a code token (token i of the input) that begins a line of luafmt's output
    is preceded by exactly indentwidth x (number of blocks and brackets open at token i) spaces *)
 Theorem C10_indent : forall ts w root e,
   lua_parse ts = Ok (root, e) -> consumed ts e = true -> writable ts root = true -> codes_tidy ts = true ->
-  no_short_else root = true -> no_trailing_sep root = true ->
+  trivia_tidy ts = true -> no_trailing_sep root = true ->
   exists cs, writer_text (fmt_spaces w) ts (view root) = Ok (chunks_text (fmt_spaces w) cs) /\ codes_of cs = sig_codes ts 0 /\
     forall A i text B p q, cs = A ++ Code i text :: B ->
       chunks_text (fmt_spaces w) A = p ++ NL :: q -> noNL q -> forallb is_sp q = true ->
@@ -278,13 +293,133 @@ Theorem C10_indent : forall ts w root e,
 Proof. exact program_indent. Qed.
 Print Assumptions C10_indent.
 
-(* non-vacuity: the example program above satisfies the two exclusions too; `x` (token 2) is at depth 1, `f` (token 11)
+(* non-vacuity: the example program above satisfies the exclusion and the check too; `x` (token 2) is at depth 1, `f` (token 11)
    at depth 2, `end` (token 18) at depth 0 *)
 Example C10_indent_nonvacuous :
   exists root e, lua_parse C10_example_tokens = Ok (root, e) /\ consumed C10_example_tokens e = true /\
     writable C10_example_tokens root = true /\ codes_tidy C10_example_tokens = true /\
-    no_short_else root = true /\ no_trailing_sep root = true /\
+    trivia_tidy C10_example_tokens = true /\ no_trailing_sep root = true /\
     map (token_depth C10_example_tokens) [2; 11; 18] = [1; 2; 0].
+Proof.
+  eexists _, _. split; [vm_compute; reflexivity|]. repeat (split; [vm_compute; reflexivity|]). vm_compute. reflexivity.
+Qed.
+
+(* non-vacuity with a one-line if that has an else part (no_short_else is false), comments, runs of blank lines, tabs and
+   trailing blanks: the two layouts (the lexer's tokens of)
+       "-- head\nfunction f(a)\nif (a) x=1 else y=2 -- c\n\n\n\nt={1,\n2}\nend\n"
+       "  -- head  \nfunction f(a)  \n\tif (a) x=1 else y=2 -- c \n  \n\n \n      t={1,\n  2}\t\n  end  \n"
+   satisfy all hypotheses; in the second `if` (token 12) begins a line at depth 1, `t` (token 36) at depth 1, `2` (token 43)
+   at depth 2, `end` (token 48) at depth 0; `else` (token 22) does not begin a line: the writer's counter there is 1, the
+   reference depth 0. *)
+Definition C10_layout1 : list token :=
+  [mkTok CComment 0 [45; 45; 32; 104; 101; 97; 100] [45; 45; 32; 104; 101; 97; 100];
+   mkTok CNewline 0 [10] [10];
+   mkTok CKeyword 0 [102; 117; 110; 99; 116; 105; 111; 110] [102; 117; 110; 99; 116; 105; 111; 110];
+   mkTok CSpace 0 [32] [32];
+   mkTok CName 0 [102] [102];
+   mkTok CSymbol 0 [40] [40];
+   mkTok CName 0 [97] [97];
+   mkTok CSymbol 0 [41] [41];
+   mkTok CNewline 0 [10] [10];
+   mkTok CKeyword 0 [105; 102] [105; 102];
+   mkTok CSpace 0 [32] [32];
+   mkTok CSymbol 0 [40] [40];
+   mkTok CName 0 [97] [97];
+   mkTok CSymbol 0 [41] [41];
+   mkTok CSpace 0 [32] [32];
+   mkTok CName 0 [120] [120];
+   mkTok CSymbol 0 [61] [61];
+   mkTok CNumber 0 [49] [49];
+   mkTok CSpace 0 [32] [32];
+   mkTok CKeyword 0 [101; 108; 115; 101] [101; 108; 115; 101];
+   mkTok CSpace 0 [32] [32];
+   mkTok CName 0 [121] [121];
+   mkTok CSymbol 0 [61] [61];
+   mkTok CNumber 0 [50] [50];
+   mkTok CSpace 0 [32] [32];
+   mkTok CComment 0 [45; 45; 32; 99] [45; 45; 32; 99];
+   mkTok CNewline 0 [10] [10];
+   mkTok CNewline 0 [10] [10];
+   mkTok CNewline 0 [10] [10];
+   mkTok CNewline 0 [10] [10];
+   mkTok CName 0 [116] [116];
+   mkTok CSymbol 0 [61] [61];
+   mkTok CSymbol 0 [123] [123];
+   mkTok CNumber 0 [49] [49];
+   mkTok CSymbol 0 [44] [44];
+   mkTok CNewline 0 [10] [10];
+   mkTok CNumber 0 [50] [50];
+   mkTok CSymbol 0 [125] [125];
+   mkTok CNewline 0 [10] [10];
+   mkTok CKeyword 0 [101; 110; 100] [101; 110; 100];
+   mkTok CNewline 0 [10] [10]].
+
+Definition C10_layout2 : list token :=
+  [mkTok CSpace 0 [32; 32] [32; 32];
+   mkTok CComment 0 [45; 45; 32; 104; 101; 97; 100; 32; 32] [45; 45; 32; 104; 101; 97; 100; 32; 32];
+   mkTok CNewline 0 [10] [10];
+   mkTok CKeyword 0 [102; 117; 110; 99; 116; 105; 111; 110] [102; 117; 110; 99; 116; 105; 111; 110];
+   mkTok CSpace 0 [32] [32];
+   mkTok CName 0 [102] [102];
+   mkTok CSymbol 0 [40] [40];
+   mkTok CName 0 [97] [97];
+   mkTok CSymbol 0 [41] [41];
+   mkTok CSpace 0 [32; 32] [32; 32];
+   mkTok CNewline 0 [10] [10];
+   mkTok CSpace 0 [9] [9];
+   mkTok CKeyword 0 [105; 102] [105; 102];
+   mkTok CSpace 0 [32] [32];
+   mkTok CSymbol 0 [40] [40];
+   mkTok CName 0 [97] [97];
+   mkTok CSymbol 0 [41] [41];
+   mkTok CSpace 0 [32] [32];
+   mkTok CName 0 [120] [120];
+   mkTok CSymbol 0 [61] [61];
+   mkTok CNumber 0 [49] [49];
+   mkTok CSpace 0 [32] [32];
+   mkTok CKeyword 0 [101; 108; 115; 101] [101; 108; 115; 101];
+   mkTok CSpace 0 [32] [32];
+   mkTok CName 0 [121] [121];
+   mkTok CSymbol 0 [61] [61];
+   mkTok CNumber 0 [50] [50];
+   mkTok CSpace 0 [32] [32];
+   mkTok CComment 0 [45; 45; 32; 99; 32] [45; 45; 32; 99; 32];
+   mkTok CNewline 0 [10] [10];
+   mkTok CSpace 0 [32; 32] [32; 32];
+   mkTok CNewline 0 [10] [10];
+   mkTok CNewline 0 [10] [10];
+   mkTok CSpace 0 [32] [32];
+   mkTok CNewline 0 [10] [10];
+   mkTok CSpace 0 [32; 32; 32; 32; 32; 32] [32; 32; 32; 32; 32; 32];
+   mkTok CName 0 [116] [116];
+   mkTok CSymbol 0 [61] [61];
+   mkTok CSymbol 0 [123] [123];
+   mkTok CNumber 0 [49] [49];
+   mkTok CSymbol 0 [44] [44];
+   mkTok CNewline 0 [10] [10];
+   mkTok CSpace 0 [32; 32] [32; 32];
+   mkTok CNumber 0 [50] [50];
+   mkTok CSymbol 0 [125] [125];
+   mkTok CSpace 0 [9] [9];
+   mkTok CNewline 0 [10] [10];
+   mkTok CSpace 0 [32; 32] [32; 32];
+   mkTok CKeyword 0 [101; 110; 100] [101; 110; 100];
+   mkTok CSpace 0 [32; 32] [32; 32];
+   mkTok CNewline 0 [10] [10]].
+
+Example C10_indent_short_else_nonvacuous :
+  exists root e, lua_parse C10_layout2 = Ok (root, e) /\ consumed C10_layout2 e = true /\
+    writable C10_layout2 root = true /\ codes_tidy C10_layout2 = true /\
+    trivia_tidy C10_layout2 = true /\ no_trailing_sep root = true /\ no_short_else root = false /\
+    map (token_depth C10_layout2) [12; 36; 43; 48; 22] = [1; 1; 2; 0; 0] /\
+    writer_text (fmt_spaces 2) C10_layout2 (view root) = Ok ("-- head
+function f(a)
+  if (a) x=1 else y=2  -- c
+
+  t={1,
+    2}
+end
+"%bs : list Z).
 Proof.
   eexists _, _. split; [vm_compute; reflexivity|]. repeat (split; [vm_compute; reflexivity|]). vm_compute. reflexivity.
 Qed.
@@ -304,7 +439,7 @@ Definition C10_trailing_sep_tokens : list token :=
 Example C10_indent_trailing_sep_refuted :
   exists root e, lua_parse C10_trailing_sep_tokens = Ok (root, e) /\ consumed C10_trailing_sep_tokens e = true /\
     writable C10_trailing_sep_tokens root = true /\ codes_tidy C10_trailing_sep_tokens = true /\
-    no_short_else root = true /\ no_trailing_sep root = false /\
+    trivia_tidy C10_trailing_sep_tokens = true /\ no_trailing_sep root = false /\
     token_depth C10_trailing_sep_tokens 5 = 1 /\
     writer_text (fmt_spaces 2) C10_trailing_sep_tokens (view root) = Ok ("x={1
 ,}
